@@ -352,7 +352,7 @@ class Worker(object):
         self.p = None
 
     def start(self):
-        env = dict(os.environ, PYTHONPATH=SCRATCH + os.pathsep + HERE, PYTHONDONTWRITEBYTECODE='1')
+        env = dict(os.environ, PYTHONPATH=os.pathsep.join([SCRATCH, HERE, os.path.join(HERE, 'mpv', 'nodes')]), PYTHONDONTWRITEBYTECODE='1')
         self.p = subprocess.Popen([sys.executable, '-m', 'mpv.worker'], stdin=subprocess.PIPE, stdout=subprocess.PIPE,
                                   env=env, text=True, cwd=HERE)
 
@@ -420,16 +420,22 @@ def concrete_runs(ctx, m, chain=False):
     for r in ctx.runs:
         kw = {}
         hi = 0
+        first_use = {}
+
+        def one(h):
+            nonlocal hi
+            if id(h) in first_use:      # the same producer object listed again
+                spec = {'t': 'same', 'holder': first_use[id(h)], 'fuzzy': h.fuzzy}
+            else:
+                first_use[id(h)] = hi
+                spec = concrete_arr(m, r.before[hi], h, done, chain)
+            hi += 1
+            return spec
         for k, v in r.kw.items():
             if isinstance(v, Holder):
-                kw[k] = concrete_arr(m, r.before[hi], v, done, chain)
-                hi += 1
+                kw[k] = one(v)
             elif isinstance(v, list) and v and isinstance(v[0], Holder):
-                items = []
-                for h in v:
-                    items.append(concrete_arr(m, r.before[hi], h, done, chain))
-                    hi += 1
-                kw[k] = {'t': 'arrlist', 'items': items}
+                kw[k] = {'t': 'arrlist', 'items': [one(h) for h in v]}
             else:
                 kw[k] = concrete_value(m, v)
         reqs.append({'module': r.module, 'cls': r.clsname, 'via': r.via, 'kwargs': kw})
